@@ -279,7 +279,16 @@ def check(ctx):
         sp = D.method('send_packet')
         st = {norm(s.targets[0]): norm(s.value) for s in walk_own(sp.node) if isinstance(s, ast.Assign)}
         pkv = sp.params[1]
-        ctx.inst('R6', sp, 'uplink-bytes', st.get('raw') == "(%s.header,) + struct.unpack('B' * len(%s.data), %s.data)" % (pkv, pkv, pkv), 'uplink bytes = (header,) + payload bytes; found %s' % st.get('raw'))
+        # what reaches CPXPacket(data=..), with the locals that assemble it read through: the header byte followed by the payload bytes
+        from ..symexec import paths_of as _paths_of
+        datas = set()
+        for p_ in _paths_of(sp)[0]:
+            for e_ in p_.events:
+                if e_.kind == 'call' and dotted(e_.node.func) == 'CPXPacket':
+                    datas |= {norm(e_.expanded(k_.value)) for k_ in e_.node.keywords if k_.arg == 'data'}
+        U = "struct.unpack('B' * len(%s.data), %s.data)" % (pkv, pkv)
+        forms = {'(%s.header,) + %s' % (pkv, U), 'tuple([%s.header, *%s])' % (pkv, U), '(%s.header, *%s)' % (pkv, U), 'tuple((%s.header, *%s))' % (pkv, U)}
+        ctx.inst('R6', sp, 'uplink-bytes', bool(datas) and datas <= forms, 'uplink bytes = (header,) + payload bytes; found %s' % sorted(datas))
         cs = [c for c in walk_own(sp.node) if isinstance(c, ast.Call) and dotted(c.func) == 'CPXPacket']
         kw = {k.arg: norm(k.value) for k in cs[0].keywords} if cs else {}
         ctx.inst('R6', sp, 'uplink-routing', kw == {'destination': 'CPXTarget.STM32', 'function': 'CPXFunction.CRTP', 'data': 'raw'}, 'CRTP is tunnelled on function CRTP to the STM32; found %s' % kw)
